@@ -1,0 +1,52 @@
+//go:build verif
+
+package gnosis
+
+import (
+	"context"
+
+	"github.com/jackc/pgx/v4/pgxpool"
+
+	obskeyper "github.com/shutter-network/rolling-shutter/rolling-shutter/chainobserver/db/keyper"
+	"github.com/shutter-network/rolling-shutter/rolling-shutter/keyper/epochkghandler"
+	"github.com/shutter-network/rolling-shutter/rolling-shutter/medley/beaconapiclient"
+	"github.com/shutter-network/rolling-shutter/rolling-shutter/medley/broker"
+)
+
+// Verification hooks (build tag "verif"): constructors and thin wrappers that give the
+// runtime-monitoring harness access to unexported fields and methods. No behaviour is added.
+
+func VerifNewKeyper(
+	config *Config,
+	dbpool *pgxpool.Pool,
+	triggerCh chan *broker.Event[*epochkghandler.DecryptionTrigger],
+	beaconAPIClient *beaconapiclient.Client,
+) *Keyper {
+	return &Keyper{
+		config:                   config,
+		dbpool:                   dbpool,
+		beaconAPIClient:          beaconAPIClient,
+		syncMonitor:              &SyncMonitor{},
+		decryptionTriggerChannel: triggerCh,
+	}
+}
+
+func (kpr *Keyper) VerifTriggerDecryption(ctx context.Context, slot uint64, nextBlock int64, keyperSet *obskeyper.KeyperSet) error {
+	return kpr.triggerDecryption(ctx, slot, nextBlock, keyperSet)
+}
+
+func (kpr *Keyper) VerifMaybeTriggerDecryption(ctx context.Context, slot uint64) error {
+	return kpr.maybeTriggerDecryption(ctx, slot)
+}
+
+func VerifGetTxPointer(ctx context.Context, db *pgxpool.Pool, eon int64, maxTxPointerAge int64) (int64, error) {
+	return getTxPointer(ctx, db, eon, maxTxPointerAge)
+}
+
+func VerifNewDecryptionKeySharesHandler(dbpool *pgxpool.Pool) *DecryptionKeySharesHandler {
+	return &DecryptionKeySharesHandler{dbpool: dbpool}
+}
+
+func VerifNewDecryptionKeysHandler(dbpool *pgxpool.Pool) *DecryptionKeysHandler {
+	return &DecryptionKeysHandler{dbpool: dbpool}
+}
